@@ -60,6 +60,13 @@ def exhaustive_locate(ctx, e, g, length, with_lookups):
 
 
 def run(ctx):
+    try:
+        run_checked(ctx)
+    except sc.KeyUnfaithful as e:
+        sc.unfaithful_violation(ctx, e)
+
+
+def run_checked(ctx):
     ctx.add_obligations(vcheck.coq_props("Store", "C01"))
     ctx.cov["checker_cmd"] = ("coqc -Q coq/Store BWStore coq/Store/Props/C01.v; work/bin/h_store -mode hist | "
                               "coqc work/C01/cases_*.v (BWStore.Corr.mismatches_from, vm_compute)")
